@@ -15,6 +15,9 @@ static const Reg regs[] = {
 	C01_MAP("M.N3.a.f", N3, 4, 4, 0, true, false),
 	C01_SET("S.N1.c.q", N1, 8, 8, 0, false, false),
 	C01_SET("S.N5.h.f", N5, 2, 2, 0, true, false),
+	C01_SETN("S.O3.b.v", O3, 8, 4, 0, false, false),
+	C01_MAPU("M.O3.u.n", O3),
+	C01_SET("S.O3.t.q", O3, 3, 1, 0, false, false),
 };
 typedef HashSetItemTraits<uint64_t, MemManagerDefault> IT;
 static void leaf(const std::vector<std::string>& w)
